@@ -313,7 +313,9 @@ class TailParser:
                 self.eat(";")
             elif x == "return":
                 self.eat()
-                self.eat("None")
+                if self.peek() not in ("None", "false"):
+                    self.die("only `return None;` / `return false;` are modelled")
+                self.eat()
                 self.eat(";")
                 out.append(("stop",))
             elif x == "break":
@@ -363,24 +365,26 @@ def gen_tail(stmts, instr, ind, what):
     die("%s: internal: %r" % (what, s))
 
 
-def gen_stop(stmts, ind, what):
-    """walk_stack's stop guard: true = leave the loop before asking for a caller"""
+def gen_stop(stmts, ind, what, on_stop="true", on_end="false"):
+    """walk_stack's stop guard: true = leave the loop before asking for a caller
+       (also used for the tests in front of instruction_seems_valid_by_symbols: on_stop = `return false`, on_end = the call is reached)"""
     if not stmts:
-        return ind + "false"
+        return ind + on_end
     s, rest = stmts[0], stmts[1:]
     if s[0] == "stop":
-        return ind + "true"
+        return ind + on_stop
     if s[0] == "let":
         pre, t, _ = s[2]
         if pre:
-            die("%s: arithmetic in the stop guard not modelled" % what)
-        return "%slet %s := %s in\n" % (ind, s[1], t) + gen_stop(rest, ind, what)
+            die("%s: arithmetic in the guard not modelled" % what)
+        return "%slet %s := %s in\n" % (ind, s[1], t) + gen_stop(rest, ind, what, on_stop, on_end)
     if s[0] == "if":
         pre, t, _ = s[1]
         if pre:
-            die("%s: arithmetic in the stop guard not modelled" % what)
-        return "%sif %s then (\n" % (ind, t) + gen_stop(s[2] + rest, ind + "  ", what) + "\n%s) else (\n" % ind + gen_stop(rest, ind + "  ", what) + "\n%s)" % ind
-    die("%s: statement %s not modelled in the stop guard" % (what, s[0]))
+            die("%s: arithmetic in the guard not modelled" % what)
+        return ("%sif %s then (\n" % (ind, t) + gen_stop(s[2] + rest, ind + "  ", what, on_stop, on_end) + "\n%s) else (\n" % ind
+                + gen_stop(rest, ind + "  ", what, on_stop, on_end) + "\n%s)" % ind)
+    die("%s: statement %s not modelled in the guard" % (what, s[0]))
 
 
 def tail_definitions(src, fmt, regw):
@@ -505,6 +509,195 @@ def tail_definitions(src, fmt, regw):
             "   The guard expressions at the end of every get_caller_frame, the stop guard of walk_stack and the arithmetic flavour of\n"
             "   amd64's resolve(), re-emitted from the Rust text (statement by statement, operator by operator). *)\n"
             "From RM Require Import Base.Word.\nOpen Scope Z_scope.\n\n" + "\n".join(out))
+
+
+# ======================================================================================
+# Second pass of round 5: the scan acceptance test (every <arch>::instruction_seems_valid and
+# lib.rs instruction_seems_valid_by_symbols), arm64's ptr_auth_strip and the FrameTrust each
+# technique stamps on the frames it makes, re-emitted from the Rust text (appended to
+# Gen/UnwindTail.v).  Text is compared after tokenization (comments and layout do not matter).
+def norm(text, what):
+    return " ".join(tokenize(text, what))
+
+
+def nre(pat):
+    """regex over a normalized token string, written with single spaces between tokens"""
+    return pat
+
+
+TRUST_CODE = {"None": 0, "Scan": 1, "CfiScan": 2, "FramePointer": 3, "CallFrameInfo": 4, "PreWalked": 5, "Context": 6}
+
+
+def valid_definitions(src, regw):
+    out = []
+    bits = {"x86": 32, "amd64": 64, "arm": regw["arm"], "arm64": regw["arm64"], "mips": regw["mips"]}
+    # ---- is_non_canonical (amd64: an expression of the guard subset; arm64: a range test)
+    m = one(src["amd64"], r"\nfn is_non_canonical\(ptr: Pointer\) -> bool \{\n(.*?)\n\}\n", "amd64 is_non_canonical", re.S)
+    what = "amd64.rs is_non_canonical"
+    ps = TailParser(tokenize(m.group(1), what), {"ptr": ("ptr", "u64")}, what, 600)
+    pre, t, ty = ps.expr({})
+    if pre or ty != "bool" or ps.peek() is not None:
+        die(what + ": not a plain boolean expression of `ptr`")
+    out.append("(* amd64.rs is_non_canonical *)\nDefinition amd64_is_non_canonical (ptr : Z) : bool := %s.\n" % t)
+    m = one(src["arm64"], r"\nfn is_non_canonical\(instruction: Pointer\) -> bool \{\n(.*?)\n\}\n", "arm64 is_non_canonical", re.S)
+    n = norm(m.group(1), "arm64.rs is_non_canonical")
+    mm = re.fullmatch(r"(! )?\( (0x[0-9a-fA-F_]+|\d[\d_]*) \. \. (= )?(0x[0-9a-fA-F_]+|\d[\d_]*) \) \. contains \( & instruction \)", n)
+    if not mm:
+        die("arm64.rs is_non_canonical: body `%s` is not `[!](LO..[=]HI).contains(&instruction)`" % n)
+    inner = "((%d <=? instruction) && (instruction %s %d))" % (intlit(mm.group(2)), "<=?" if mm.group(3) else "<?", intlit(mm.group(4)))
+    out.append("(* arm64.rs (= arm64_old.rs) is_non_canonical *)\nDefinition arm64_is_non_canonical (instruction : Z) : bool := %s.\n"
+               % (("(negb %s)" % inner) if mm.group(1) else inner))
+    # ---- <arch>::instruction_seems_valid: the tests in front of the call of instruction_seems_valid_by_symbols
+    for key in ("x86", "amd64", "arm", "arm64", "mips"):
+        what = key + ".rs instruction_seems_valid"
+        m = one(src[key], r"\nasync fn instruction_seems_valid<P>\(\s*instruction: Pointer,\s*modules: &MinidumpModuleList,\s*symbol_provider: &P,\s*\) -> bool\s*"
+                          r"where\s*P: SymbolProvider \+ Sync,\s*\{(.*?)\n    super::instruction_seems_valid_by_symbols\(instruction( as u64)?, modules, symbol_provider\)\.await\n\}\n",
+                what, re.S)
+        atoms = {"instruction": ("instruction", "u%d" % bits[key])}
+        if key in ("amd64", "arm64"):
+            atoms["is_non_canonical(instruction)"] = ("(%s_is_non_canonical instruction)" % key, "bool")
+        ps = TailParser(tokenize(m.group(1), what), atoms, what, 600)
+        stmts = ps.block({}, None)
+        out.append("(* %s.rs instruction_seems_valid: true = the tests in front of it let the address through to\n"
+                   "   super::instruction_seems_valid_by_symbols(instruction%s, ..); false = `return false` *)\n"
+                   "Definition %s_instr_pre_ok (instruction : Z) : bool :=\n%s.\n"
+                   % (key, m.group(2) or "", key, gen_stop(stmts, "  ", what, "false", "true")))
+        # every scan loop asks exactly this function about the candidate word
+        cnt = 2 if key == "mips" else 1
+        one(src[key], r"\n        if instruction_seems_valid\(caller_(?:ip|pc)(?: as u64)?, args\.modules, args\.symbol_provider\)\.await \{", key + " scan loop acceptance test", count=cnt)
+    # ---- lib.rs instruction_seems_valid_by_symbols
+    what = "lib.rs instruction_seems_valid_by_symbols"
+    m = one(src["lib"], r"\nasync fn instruction_seems_valid_by_symbols<P>\(\s*instruction: u64,\s*modules: &MinidumpModuleList,\s*symbol_provider: &P,\s*\) -> bool\s*"
+                        r"where\s*P: SymbolProvider \+ Sync,\s*\{\n(.*?)\n\}\n", what, re.S)
+    n = norm(m.group(1), what)
+    lit = r"(0x[0-9a-fA-F_]+|\d[\d_]*)"
+    mm = re.fullmatch(
+        r"let instruction = instruction \. (saturating_sub|wrapping_sub|saturating_add|wrapping_add) \( " + lit + r" \) ; "
+        r"(?P<guard>(?:if [^{}]* \{ return false ; \} )*)"
+        r"if let Some \( module \) = modules \. module_at_address \( (?P<arg>[^{}]*?) \) \{ "
+        r"struct DummyFrame \{ instruction : u64 , has_name : bool , \} "
+        r"impl FrameSymbolizer for DummyFrame \{ "
+        r"fn get_instruction \( & self \) - > u64 \{ (?P<gi>[^{};]*) \} "
+        r"fn set_function \( & mut self , name : & str , _base : u64 , _parameter_size : u32 \) \{ self \. has_name = (?P<neg>! )?name \. is_empty \( \) ; \} "
+        r"fn set_source_file \( & mut self , _file : & str , _line : u32 , _base : u64 \) \{ \} \} "
+        r"let mut frame = DummyFrame \{ instruction , has_name : (?P<init>true|false) , \} ; "
+        r"if symbol_provider \. fill_symbol \( module , & mut frame \) \. await \. (?P<test>is_ok|is_err) \( \) "
+        r"\{ (?P<l1>frame \. has_name|! frame \. has_name|true|false) \} else \{ (?P<l2>frame \. has_name|! frame \. has_name|true|false) \} "
+        r"\} else \{ (?P<l3>true|false) \}", n)
+    if not mm:
+        die(what + ": the body no longer has the shape the model was written for: `%s`" % n)
+    sub_op, sub_n = mm.group(1), intlit(mm.group(2))
+    adj = {"saturating_sub": "sat_sub instruction %d", "wrapping_sub": "wrap64 (instruction - %d)",
+           "saturating_add": "sat_add 64 instruction %d", "wrapping_add": "wrap64 (instruction + %d)"}[sub_op] % sub_n
+    gtxt = mm.group("guard").strip()
+    ps = TailParser(gtxt.split(" ") if gtxt else [], {"instruction": ("instruction", "u64")}, what + " (tests before the module lookup)", 600)
+    gstmts = ps.block({}, None)
+    ps = TailParser(mm.group("arg").split(" "), {"instruction": ("instruction", "u64")}, what + " (argument of module_at_address)", 600)
+    pre, t_arg, ty = ps.expr({})
+    if pre or ty != "u64" or ps.peek() is not None:
+        die(what + ": argument of module_at_address is not a plain u64 expression")
+    ps = TailParser(mm.group("gi").split(" "), {"self.instruction": ("instruction", "u64")}, what + " (DummyFrame::get_instruction)", 600)
+    pre, t_gi, ty = ps.expr({})
+    if pre or ty != "u64" or ps.peek() is not None:
+        die(what + ": DummyFrame::get_instruction is not a plain u64 expression")
+    leaf = lambda x: {"frame . has_name": "has_name", "! frame . has_name": "(negb has_name)", "true": "true", "false": "false"}[x]
+    ok_leaf, err_leaf = (mm.group("l1"), mm.group("l2")) if mm.group("test") == "is_ok" else (mm.group("l2"), mm.group("l1"))
+    if "has_name" in err_leaf:
+        pass   # has_name after a failed fill_symbol: whatever set_function calls happened before the error; the model keeps the value below
+    body = ("  match module_at (%s) with\n"
+            "  | Some module =>\n"
+            "      match fill_symbol module (%s) with\n"
+            "      | Some called =>\n"
+            "          let has_name := match called with Some name_is_empty => %s | None => %s end in\n"
+            "          %s\n"
+            "      | None =>\n"
+            "          let has_name := %s in\n"
+            "          %s\n"
+            "      end\n"
+            "  | None => %s\n"
+            "  end" % (t_arg, t_gi, "(negb name_is_empty)" if mm.group("neg") else "name_is_empty", mm.group("init"),
+                       leaf(ok_leaf), mm.group("init"), leaf(err_leaf), mm.group("l3")))
+    out.append("(* lib.rs instruction_seems_valid_by_symbols.  module_at = modules.module_at_address; fill_symbol module addr models\n"
+               "   symbol_provider.fill_symbol(module, &mut frame) for a frame whose get_instruction() is addr: None = Err(_),\n"
+               "   Some None = Ok without a call of set_function, Some (Some e) = Ok after set_function(name, ..) with name.is_empty() = e *)\n"
+               "Definition lib_isv_adjust (instruction : Z) : Z := %s.  (* `let instruction = instruction.%s(%d);` *)\n"
+               "Definition lib_isv_by_symbols {M : Type} (module_at : Z -> option M) (fill_symbol : M -> Z -> option (option bool)) (instruction : Z) : bool :=\n"
+               "  let instruction := lib_isv_adjust instruction in\n%s.\n"
+               % (adj, sub_op, sub_n, gen_stop(gstmts, "  ", what, "false", "(\n" + body + ")")))
+    # ---- arm64 ptr_auth_strip
+    what = "arm64.rs ptr_auth_strip"
+    m = one(src["arm64"], r"\nfn ptr_auth_strip\(modules: &MinidumpModuleList, ptr: Pointer\) -> Pointer \{\n(.*?)\n\}\n", what, re.S)
+    n = norm(m.group(1), what)
+    mm = re.fullmatch(
+        r"let apple_default_max_addr = \( 1 < < " + lit + r" \) (?P<aop>[-+]) " + lit + r" ; "
+        r"let max_module_addr = modules \. by_addr \( \) \. (?P<which>next_back|next) \( \) \. map \( \| last_module \| \{ "
+        r"last_module \. base_address \( \) \. (?P<madd>saturating_add|wrapping_add) \( last_module \. size \( \) \) \} \) \. unwrap_or \( " + lit + r" \) ; "
+        r"let max_addr = u64 :: (?P<mm>max|min) \( apple_default_max_addr , max_module_addr \) ; "
+        r"let mask = max_addr \. checked_next_power_of_two \( \) \. map \( \| high_bit \| high_bit (?P<hop>[-+]) " + lit + r" \) \. unwrap_or \( (?P<dflt>! 0|0) \) ; "
+        r"ptr (?P<bop>[&|^]) mask", n)
+    if not mm:
+        die(what + ": the body no longer has the shape the model was written for: `%s`" % n)
+    g = mm.groups()
+    shift, aconst, dflt0, hconst = intlit(g[0]), intlit(g[2]), intlit(g[5]), intlit(g[8])
+    chk = lambda op: "chk_add" if op == "+" else "chk_sub"
+    bop = {"&": "Z.land", "|": "Z.lor", "^": "Z.lxor"}[mm.group("bop")]
+    madd = "sat_add 64 base_address size" if mm.group("madd") == "saturating_add" else "wrap64 (base_address + size)"
+    out.append("(* arm64.rs (= arm64_old.rs) ptr_auth_strip.  module_end = modules.by_addr().%s() as Some (base_address, size);\n"
+               "   checked_next_power_of_two = u64::checked_next_power_of_two (C05/ModelTail.v takes it as an argument) *)\n"
+               "Definition arm64_strip_which_module_last : bool := %s.\n"
+               "Definition arm64_max_module_addr (module_end : option (Z * Z)) : Z :=\n"
+               "  match module_end with Some (base_address, size) => %s | None => %d end.\n"
+               "Definition arm64_ptr_auth_strip_gen (checked_next_power_of_two : Z -> option Z) (p : profile) (module_end : option (Z * Z)) (ptr : Z) : outcome Z :=\n"
+               "  do apple_default_max_addr <- %s p 64 610 (Z.shiftl 1 %d) %d;\n"
+               "  let max_module_addr := arm64_max_module_addr module_end in\n"
+               "  let max_addr := Z.%s apple_default_max_addr max_module_addr in\n"
+               "  do mask <- match checked_next_power_of_two max_addr with\n"
+               "             | Some high_bit => %s p 64 611 high_bit %d\n"
+               "             | None => Ret %s\n"
+               "             end;\n"
+               "  Ret (%s ptr mask).\n"
+               % (mm.group("which"), "true" if mm.group("which") == "next_back" else "false", madd, dflt0,
+                  chk(mm.group("aop")), shift, aconst, mm.group("mm"), chk(mm.group("hop")), hconst,
+                  "18446744073709551615" if mm.group("dflt") == "! 0" else "0", bop))
+    # how the techniques use it
+    one(src["arm64"], r"ptr_auth_strip\(", "arm64 uses of ptr_auth_strip", count=6)
+    # ---- the FrameTrust each technique stamps on its frames; nothing else ever sets a trust
+    expect = {"x86": ["get_caller_by_cfi", "get_caller_by_frame_pointer", "get_caller_by_scan"],
+              "amd64": ["get_caller_by_cfi", "get_caller_by_frame_pointer", "get_caller_by_scan"],
+              "arm": ["get_caller_by_cfi", "get_caller_by_frame_pointer", "get_caller_by_scan"],
+              "arm64": ["get_caller_by_cfi", "get_caller_by_frame_pointer", "get_caller_by_scan"],
+              "mips": ["get_caller_by_cfi", "get_caller_by_scan32", "get_caller_by_scan64"]}
+    short = {"get_caller_by_cfi": "cfi", "get_caller_by_frame_pointer": "fp", "get_caller_by_scan": "scan",
+             "get_caller_by_scan32": "scan32", "get_caller_by_scan64": "scan64"}
+    lines = []
+    for key in ("x86", "amd64", "arm", "arm64", "mips"):
+        s = src[key]
+        fns = [(mm.start(), mm.group(1)) for mm in re.finditer(r"\n(?:pub )?(?:async )?fn (\w+)", s)]
+        found = []
+        for mm in re.finditer(r"StackFrame::from_context\(\s*(\w+)\s*,\s*FrameTrust::(\w+)\s*,?\s*\)", s):
+            owner = [nm for pos, nm in fns if pos < mm.start()]
+            if not owner:
+                die(key + ": StackFrame::from_context outside a function")
+            if mm.group(2) not in TRUST_CODE:
+                die(key + ": unknown FrameTrust::" + mm.group(2))
+            found.append((owner[-1], mm.group(2)))
+        if [f for f, _ in found] != expect[key]:
+            die("%s: frames are made by %s (the model expects exactly one StackFrame::from_context in each of %s)" % (key, found, expect[key]))
+        if len(re.findall(r"StackFrame::from_context|StackFrame \{", s)) != len(found):
+            die(key + ": a StackFrame is constructed in a way the model does not know")
+        for f, tr in found:
+            lines.append("Definition %s_trust_%s : Z := %d.  (* %s: FrameTrust::%s *)" % (key, short[f], TRUST_CODE[tr], f, tr))
+    m = one(src["lib"], r"frames: vec!\[StackFrame::from_context\(context, FrameTrust::(\w+)\)\],", "lib.rs CallStack::with_context")
+    if m.group(1) not in TRUST_CODE:
+        die("lib.rs: unknown FrameTrust::" + m.group(1))
+    lines.append("Definition lib_trust_context_frame : Z := %d.  (* CallStack::with_context: FrameTrust::%s *)" % (TRUST_CODE[m.group(1)], m.group(1)))
+    for key in ("x86", "amd64", "arm", "arm64", "mips", "lib"):
+        if re.search(r"\.trust\s*=[^=]", src[key]):
+            die(key + ".rs assigns to a frame's trust after construction")
+    one(src["lib"], r"pub fn from_context\(context: MinidumpContext, trust: FrameTrust\) -> StackFrame \{\s*StackFrame \{.*?\n            trust,\n", "from_context stores its trust argument", re.S)
+    out.append("(* the FrameTrust each technique gives the frames it makes (codes: none 0, scan 1, cfi_scan 2, frame_pointer 3, cfi 4,\n"
+               "   prewalked 5, context 6); these are the only places of minidump-unwind where a StackFrame is constructed *)\n" + "\n".join(lines) + "\n")
+    return "\n".join(out)
 
 
 def main():
@@ -711,7 +904,7 @@ def main():
     text = ("(* GENERATED by translate/unwind_consts.py from /repo/minidump-unwind/src/*.rs -- do not edit.\n"
             "   Register names are the big-endian base-256 value of their ASCII spelling. *)\n"
             "From Coq Require Import ZArith List.\nImport ListNotations.\nOpen Scope Z_scope.\n\n" + "\n".join(out) + "\n")
-    tail = tail_definitions(src, fmt, regw)
+    tail = tail_definitions(src, fmt, regw) + "\n" + valid_definitions(src, regw)
     os.makedirs(outdir, exist_ok=True)
     for fname, body in (("UnwindConsts.v", text), ("UnwindTail.v", tail)):
         path = os.path.join(outdir, fname)
